@@ -1,6 +1,7 @@
 package rules
 
 import (
+	"go/token"
 	"sort"
 	"strings"
 
@@ -153,18 +154,43 @@ func (c *Ctx) ruleFeedback(rule string) {
 			// leaves of the value (through phis and local cells): loads of controller fields, and the rest
 			fields := map[string]bool{}
 			others := 0
-			seen := map[ssa.Value]bool{}
-			var walk func(v ssa.Value, depth int)
-			walk = func(v ssa.Value, depth int) {
+			var unguarded []string
+			type seenKey struct {
+				v       ssa.Value
+				guarded bool
+			}
+			seen := map[seenKey]bool{}
+			// noPrevious: the edge is taken only while a receiver field says "nothing remembered yet" (nil / false)
+			noPrevious := func(facts []ir.Fact) bool {
+				isRecvFieldLoad := func(v ssa.Value) bool {
+					u, ok := ir.Resolve(v).(*ssa.UnOp)
+					if !ok {
+						return false
+					}
+					_, ok = recvFieldOfLoad(u, tb)
+					return ok
+				}
+				for _, f := range facts {
+					if f.Op == token.EQL && ((ir.IsNilConst(f.Y) && isRecvFieldLoad(f.X)) || (ir.IsNilConst(f.X) && isRecvFieldLoad(f.Y))) {
+						return true
+					}
+					if f.Bool != nil && !f.Truth && isRecvFieldLoad(f.Bool) {
+						return true
+					}
+				}
+				return false
+			}
+			var walk func(v ssa.Value, depth int, guarded bool)
+			walk = func(v ssa.Value, depth int, guarded bool) {
 				v = ir.Resolve(v)
-				if seen[v] || depth > 8 {
+				if seen[seenKey{v, guarded}] || depth > 8 {
 					return
 				}
-				seen[v] = true
+				seen[seenKey{v, guarded}] = true
 				switch x := v.(type) {
 				case *ssa.Phi:
-					for _, e := range x.Edges {
-						walk(e, depth+1)
+					for i, e := range x.Edges {
+						walk(e, depth+1, guarded || noPrevious(ranges.FactsAt(x.Block(), x.Block().Preds[i])))
 					}
 					return
 				case *ssa.UnOp:
@@ -176,19 +202,30 @@ func (c *Ctx) ruleFeedback(rule string) {
 					// a helper of the controller that selects the feedback value: look at what it returns
 					if cal := ir.Callee(x).Static; cal != nil && load_FuncPkgPath(cal) == PkgCtrl && len(cal.Blocks) > 0 && cal.Signature.Results().Len() == 1 && !x.Call.IsInvoke() {
 						for _, rt := range ir.Returns(cal) {
-							walk(rt.Results[0], depth+1)
+							walk(rt.Results[0], depth+1, guarded || noPrevious(ranges.FactsAt(rt.Block(), nil)))
 						}
 						return
 					}
 				}
 				others++
+				if !guarded {
+					unguarded = append(unguarded, tb.Of(v, nil).String())
+				}
 			}
-			walk(cyc.Call.Args[1], 0)
+			walk(cyc.Call.Args[1], 0, false)
 			if len(fields) == 0 {
 				c.R.Bad(rule, fk, fk, c.P.Pos(cyc.Pos()), "the `current` argument of Cycle does not come from a controller field that remembers the previous loop output: "+tb.Of(cyc.Call.Args[1], nil).String())
 				continue
 			}
 			okAll := true
+			if len(unguarded) > 0 {
+				okAll = false
+				u := unguarded[0]
+				if len(u) > 200 {
+					u = u[:200] + "…"
+				}
+				c.R.Bad(rule, fk+"|other-source", fk, c.P.Pos(cyc.Pos()), sprintf("besides the remembered loop output, Cycle's current value can be %s on a path that is not limited to 'nothing remembered yet' (field nil/false): the loop is fed something else than its own previous output", u))
+			}
 			var names []string
 			for name := range fields {
 				names = append(names, name)
